@@ -66,7 +66,8 @@ FIX_COMMITS = ["d6ae502 (passive start-up cancellation: port/listener leak)",
                "913f430 (stat() fallback without MLST failed for '.', '..' and '')",
                "25ab17f (unreadable directory listed as empty with a success reply)",
                "dfd8374 (ThrottleStreamIO default throttles dict shared by all streams)",
-               "b02d52b (repr() of a User showed the password)"]
+               "b02d52b (repr() of a User showed the password)",
+               "6d1bc94 (worker wrapper: task looked up once; amends ca6ffb5)"]
 
 # dimensions added after the fourth wave of seeded changes (plug-in APIs as part of the input space)
 EXTRA = {
